@@ -35,3 +35,24 @@ def check_has_load_dependencies():
                                 if len(fails) > 3:
                                     return cases, fails
     return cases, fails
+
+
+def multistore_witness():
+    """Native witness of the recorded finding O3.4 (clause (d) of the _apply_slot_to_stack contract): the example of known_findings.json,
+    run on the tree under test.  Returns a replayable record if the optimised program leaves a value on the stack, else None."""
+    from vf.core import use_repo
+    use_repo()
+    import pyteal as pt
+    from spec import avm
+    s = pt.ScratchVar(pt.TealType.uint64)
+    prog = pt.Seq(s.store(pt.Int(1)), s.store(pt.Int(2)), pt.Pop(s.load()), pt.Int(7))
+    try:
+        t_on = pt.compileTeal(prog, pt.Mode.Application, version=8, optimize=pt.OptimizeOptions(scratch_slots=True))
+        t_off = pt.compileTeal(prog, pt.Mode.Application, version=8, optimize=pt.OptimizeOptions(scratch_slots=False))
+    except Exception:
+        return None
+    r_on, r_off = avm.run(t_on, avm.Ctx()), avm.run(t_off, avm.Ctx())
+    if r_off.verdict == "approve" and not r_off.final_stack and (r_on.verdict != "approve" or r_on.final_stack):
+        return {"input": {"program": "Seq(s.store(Int(1)), s.store(Int(2)), Pop(s.load()), Int(7))", "version": 8, "scratch_slots": True},
+                "what": f"optimised program ends with {r_on.final_stack!r} below the result ({r_on.verdict}); unoptimised program ends clean", "teal": t_on}
+    return None
